@@ -284,6 +284,10 @@ func (b *scriptBuilder) read() {
 		if b.cheapStart(h) {
 			if b.seqs > 0 && b.r.coin(60) {
 				b.add("run:%d:%d", b.r.intn(b.seqs), take)
+			} else if b.finiteWork(h) && b.r.coin(40) {
+				// a stored Backward() sequence ("na" where the value is not a FiniteSequence, and in v1/v2)
+				b.add("mkseqb:%d", h)
+				b.seqs++
 			} else {
 				b.add("mkseq:%d", h)
 				b.seqs++
@@ -331,6 +335,46 @@ func genC04(e *emitter, r *rng, tier string) {
 		}
 		b.emit(e, "C04.history.len"+fmt.Sprint((len(b.stmts)/10)*10))
 		e.count("C04.num." + strings.SplitN(ns.desc, ":", 2)[0])
+	}
+	// re-running iterator VALUES obtained earlier (All(), Backward()) of started / bounded views:
+	// a pass abandoned half way, then a full pass, then another — each must start afresh
+	rr := 40
+	if tier == "thorough" {
+		rr = 500
+	}
+	for i := 0; i < rr; i++ {
+		L := r.pick([]int{8, 30, 99, 100, 101, 150})
+		var ns numSpec
+		if r.coin(50) {
+			ns = genNumber(L, r.rangeInt(-2, 4), false)
+		} else {
+			ns = finiteNumber(r, L, r.rangeInt(-2, 4))
+		}
+		b := newScriptBuilder(r, ns)
+		st := r.pick([]int{1, 2, 5, L / 2})
+		b.add("ws:0:%d", st)
+		b.handles = append(b.handles, hinfo{st, maxInt})
+		h := 1
+		if r.coin(60) {
+			en := r.pick([]int{L - 1, L, L + 5, st + 3})
+			b.add("we:1:%d", en)
+			b.handles = append(b.handles, hinfo{st, en})
+			h = 2
+		}
+		if r.coin(30) && !ns.allV {
+			b.add("fws:%d:%d", h, st+1)
+			b.handles = append(b.handles, hinfo{st + 1, b.handles[h].hi})
+			h = len(b.handles) - 1
+		}
+		b.add("mkseqb:%d", h)
+		b.add("mkseq:%d", h)
+		for _, t := range []int{2, 1000, 1, 3, 1000} {
+			b.add("run:0:%d", t)
+			b.add("run:1:%d", t)
+		}
+		b.add("back:%d:1000", h)
+		b.add("fwd:%d:1000", h)
+		b.emit(e, "C04.history.rerun_stored_sequences")
 	}
 	// histories that contain OTHER operations on the Number and on truncated views of it —
 	// formatting (String, Exact, Format), printing, searching — before the reads: none of them may
